@@ -9,6 +9,7 @@ mutual
 /-- every variable assigned in the statement is in `W` -/
 def LStmt.assignsIn (W : Nat → Bool) : LStmt → Bool
   | .assign x _ => W x
+  | .assignVar x _ => W x
   | .probe _ _ => true
   | .ite _ thn rest => thn.assignsIn W && rest.assignsIn W
   | .whileDo _ b => b.assignsIn W
@@ -27,9 +28,11 @@ def LBlock.assignsIn (W : Nat → Bool) : LBlock → Bool
 end
 
 mutual
-/-- every variable assigned inside a loop body is in `W` (assignments outside loops are unrestricted) -/
+/-- every variable assigned inside a loop body is in `W`, and `W` is closed under `x = y` (`y ∈ W → x ∈ W`);
+assignments outside loops are otherwise unrestricted -/
 def LStmt.loopOK (W : Nat → Bool) : LStmt → Bool
   | .assign _ _ => true
+  | .assignVar x y => !W y || W x
   | .probe _ _ => true
   | .ite _ thn rest => thn.loopOK W && rest.loopOK W
   | .whileDo _ b => b.assignsIn W
@@ -51,6 +54,7 @@ mutual
 /-- side condition for stored-type guards (as `Stmt.ok`) -/
 def LStmt.ok (S : List (Nat × TName)) : LStmt → Bool
   | .assign x _ => !(S.any fun p => p.1 == x)
+  | .assignVar x _ => !(S.any fun p => p.1 == x)
   | .probe _ _ => true
   | .ite c thn rest => c.storedIn S && thn.ok S && rest.ok S
   | .whileDo c b => c.storedIn S && b.ok S
@@ -71,6 +75,9 @@ end
 mutual
 theorem LStmt.assignsIn_loopOK : ∀ (s : LStmt), s.assignsIn W = true → s.loopOK W = true
   | .assign _ _, _ => rfl
+  | .assignVar x y, h => by
+    simp only [LStmt.assignsIn] at h
+    simp [LStmt.loopOK, h]
   | .probe _ _, _ => rfl
   | .ite _ thn rest, h => by
     simp only [LStmt.assignsIn, Bool.and_eq_true] at h
@@ -127,6 +134,14 @@ theorem LStmt.exec_agree : ∀ (fuel : Nat) (ρ : Env) (s : LStmt) (r : Out), s.
     LStmt.exec fuel ρ s = some r → Agree W r.env ρ
   | 0, _, _, _, _, h => by simp [LStmt.exec] at h
   | fuel + 1, ρ, .assign y l, r, hn, h => by
+    simp only [LStmt.exec, Option.some.injEq] at h
+    subst h
+    simp only [LStmt.assignsIn] at hn
+    refine ⟨fun x hx => ?_, by simp⟩
+    rw [env_get_set]
+    have : ¬ x = y := by intro he; subst he; rw [hn] at hx; cases hx
+    simp [this]
+  | fuel + 1, ρ, .assignVar y z, r, hn, h => by
     simp only [LStmt.exec, Option.some.injEq] at h
     subst h
     simp only [LStmt.assignsIn] at hn
@@ -256,92 +271,6 @@ theorem LBlock.execN_agree : ∀ (fuel n : Nat) (ρ : Env) (b : LBlock) (r : Out
           exact e1.trans (LBlock.execN_agree fuel n r1.env b r2 hn h2)
 end
 
-/-! ### static well-formedness of every flow id produced -/
-
-theorem wf_append_single {l : List Pt} {p : Pt} (hl : ∀ q ∈ l, WfPt q) (hp : WfPt p) : ∀ q ∈ l ++ [p], WfPt q := by
-  intro q hq
-  rcases List.mem_append.mp hq with h | h
-  · exact hl q h
-  · simp only [List.mem_cons, List.not_mem_nil, or_false] at h; subst h; exact hp
-
-theorem wf_append {l1 l2 : List Pt} (h1 : ∀ q ∈ l1, WfPt q) (h2 : ∀ q ∈ l2, WfPt q) : ∀ q ∈ l1 ++ l2, WfPt q := by
-  intro q hq
-  rcases List.mem_append.mp hq with h | h
-  · exact h1 q h
-  · exact h2 q h
-
-mutual
-theorem LStmt.aexec_wf (nv : Nat) (d : Nat → Atom) : ∀ (s : LStmt) (cur : Pt), WfPt cur →
-    WfPt (s.aexec nv d cur).out ∧ ∀ p ∈ (s.aexec nv d cur).brks, WfPt p
-  | .assign x l, cur, h => by simp only [LStmt.aexec]; exact ⟨assignNode_wf h, by simp⟩
-  | .probe id x, cur, h => by simp only [LStmt.aexec]; exact ⟨passNode_wf h, by simp⟩
-  | .ite c thn rest, cur, h => by
-    simp only [LStmt.aexec]
-    have he := edges_wf nv c cur h
-    have ht := LBlock.aexec_wf nv d thn _ (finishLabel_wf he.1 h)
-    have hr := LElse.aexec_wf nv d rest cur _ h he.2
-    refine ⟨finishLabel_wf ?_ h, wf_append ht.2 hr.2⟩
-    intro p hp
-    simp only [List.mem_cons] at hp
-    rcases hp with rfl | hp
-    · exact ht.1
-    · exact hr.1 p hp
-  | .whileDo c body, cur, h => by simp only [LStmt.aexec]; exact ⟨h, by simp⟩
-  | .whileTrue body, cur, h => by
-    simp only [LStmt.aexec]
-    have hb := LBlock.aexec_wf nv d body cur h
-    exact ⟨finishLabel_wf (wf_append_single hb.2 hb.1) h, by simp⟩
-  | .repeatUntil body c, cur, h => by
-    simp only [LStmt.aexec]
-    have hb := LBlock.aexec_wf nv d body cur h
-    have he := edges_wf nv c _ hb.1
-    exact ⟨finishLabel_wf (wf_append hb.2 he.1) hb.1, by simp⟩
-  | .forNum a b body, cur, h => by
-    simp only [LStmt.aexec]
-    have hb := LBlock.aexec_wf nv d body (.node (passNode nv cur)) (passNode_wf h)
-    split
-    · exact ⟨finishLabel_wf (wf_append_single hb.2 hb.1) h, by simp⟩
-    · exact ⟨h, by simp⟩
-  | .forIn n body, cur, h => by simp only [LStmt.aexec]; exact ⟨h, by simp⟩
-  | .breakIf c, cur, h => by
-    simp only [LStmt.aexec]
-    have he := edges_wf nv c cur h
-    refine ⟨finishLabel_wf he.2 h, ?_⟩
-    intro p hp
-    simp only [List.mem_cons, List.not_mem_nil, or_false] at hp
-    subst hp
-    exact passNode_wf (finishLabel_wf he.1 h)
-theorem LElse.aexec_wf (nv : Nat) (d : Nat → Atom) : ∀ (e : LElse) (cur : Pt) (ins : List Pt), WfPt cur →
-    (∀ p ∈ ins, WfPt p) →
-    (∀ p ∈ (e.aexec nv d cur ins).1, WfPt p) ∧ ∀ p ∈ (e.aexec nv d cur ins).2.2, WfPt p
-  | .none, cur, ins, h, hi => by
-    simp only [LElse.aexec, List.mem_cons, List.not_mem_nil, or_false, forall_eq]
-    exact ⟨finishLabel_wf hi h, by simp⟩
-  | .els b, cur, ins, h, hi => by
-    simp only [LElse.aexec, List.mem_cons, List.not_mem_nil, or_false, forall_eq]
-    exact LBlock.aexec_wf nv d b _ (finishLabel_wf hi h)
-  | .elif c thn rest, cur, ins, h, hi => by
-    simp only [LElse.aexec]
-    have hpre := finishLabel_wf hi h
-    have he := edges_wf nv c _ hpre
-    have ht := LBlock.aexec_wf nv d thn _ (finishLabel_wf he.1 h)
-    have hr := LElse.aexec_wf nv d rest cur _ h he.2
-    refine ⟨?_, wf_append ht.2 hr.2⟩
-    intro p hp
-    simp only [List.mem_cons] at hp
-    rcases hp with rfl | hp
-    · exact ht.1
-    · exact hr.1 p hp
-theorem LBlock.aexec_wf (nv : Nat) (d : Nat → Atom) : ∀ (b : LBlock) (cur : Pt), WfPt cur →
-    WfPt (b.aexec nv d cur).out ∧ ∀ p ∈ (b.aexec nv d cur).brks, WfPt p
-  | .nil, cur, h => by simp only [LBlock.aexec]; exact ⟨h, by simp⟩
-  | .cons s rest, cur, h => by
-    simp only [LBlock.aexec]
-    have h1 := LStmt.aexec_wf nv d s cur h
-    have h2 := LBlock.aexec_wf nv d rest _ h1.1
-    exact ⟨h2.1, wf_append h1.2 h2.2⟩
-end
-
 /-! ### dynamic soundness, by induction on the fuel -/
 
 /-- after a statement: the flow id reached is sound — the enclosing loop's break list when a `break` propagates -/
@@ -410,22 +339,33 @@ structure Post (W : Nat → Bool) (S : List (Nat × TName)) (nv : Nat) (r : Out)
 
 mutual
 theorem LStmt.sound (nv : Nat) (d : Nat → Atom) : ∀ (fuel : Nat) (s : LStmt) (cur : Pt) (ρ : Env) (r : Out),
-    s.loopOK W = true → s.ok S = true → ρ.length = nv → StoredOK S ρ → WfPt cur → SoundPt W ρ cur →
+    s.loopOK W = true → s.ok S = true → ρ.length = nv → StoredOK S ρ → SoundPt W ρ cur →
     LStmt.exec fuel ρ s = some r →
     Post W S nv r (s.aexec nv d cur).out (s.aexec nv d cur).brks (s.aexec nv d cur).obs
-  | 0, _, _, _, _, _, _, _, _, _, _, h => by simp [LStmt.exec] at h
-  | fuel + 1, .assign x l, cur, ρ, r, _, hok, hl, hst, hw, hs, h => by
+  | 0, _, _, _, _, _, _, _, _, _, h => by simp [LStmt.exec] at h
+  | fuel + 1, .assign x l, cur, ρ, r, _, hok, hl, hst, hs, h => by
     simp only [LStmt.exec, Option.some.injEq] at h
     subst h
     simp only [LStmt.ok, Bool.not_eq_eq_eq_not, Bool.not_true] at hok
     simp only [LStmt.aexec]
-    exact ⟨assignNode_sound hl hw hs, by simpa using hl, storedOK_set hst hok, ObsOK.nil⟩
-  | fuel + 1, .probe id x, cur, ρ, r, _, _, hl, hst, hw, hs, h => by
+    exact ⟨assignNode_sound hl hs, by simpa using hl, storedOK_set hst hok, ObsOK.nil⟩
+  | fuel + 1, .assignVar x y, cur, ρ, r, hi, hok, hl, hst, hs, h => by
+    simp only [LStmt.exec, Option.some.injEq] at h
+    subst h
+    simp only [LStmt.ok, Bool.not_eq_eq_eq_not, Bool.not_true] at hok
+    simp only [LStmt.loopOK, Bool.or_eq_true, Bool.not_eq_eq_eq_not, Bool.not_true] at hi
+    simp only [LStmt.aexec]
+    refine ⟨assignVarNode_sound hl ?_ hs, by simpa using hl, storedOK_set hst hok, ObsOK.nil⟩
+    intro hx
+    rcases hi with h1 | h1
+    · exact h1
+    · rw [hx] at h1; cases h1
+  | fuel + 1, .probe id x, cur, ρ, r, _, _, hl, hst, hs, h => by
     simp only [LStmt.exec, Option.some.injEq] at h
     subst h
     simp only [LStmt.aexec]
     exact ⟨passNode_sound hl hs, hl, hst, probe_obs hs⟩
-  | fuel + 1, .breakIf c, cur, ρ, r, _, hok, hl, hst, hw, hs, h => by
+  | fuel + 1, .breakIf c, cur, ρ, r, _, hok, hl, hst, hs, h => by
     simp only [LStmt.exec, Option.some.injEq] at h
     subst h
     simp only [LStmt.ok] at hok
@@ -436,29 +376,27 @@ theorem LStmt.sound (nv : Nat) (d : Nat → Atom) : ∀ (fuel : Nat) (s : LStmt)
     · exact finishLabel_sound (hes.2 hc)
     · exact ⟨Pt.node (passNode nv (finishLabel (c.edges nv cur).1 cur)), by simp,
         passNode_sound hl (finishLabel_sound (d := cur) (hes.1 hc))⟩
-  | fuel + 1, .ite c thn rest, cur, ρ, r, hi, hok, hl, hst, hw, hs, h => by
+  | fuel + 1, .ite c thn rest, cur, ρ, r, hi, hok, hl, hst, hs, h => by
     simp only [LStmt.loopOK, Bool.and_eq_true] at hi
     simp only [LStmt.ok, Bool.and_eq_true] at hok
     simp only [LStmt.exec] at h
     simp only [LStmt.aexec]
-    have hew := edges_wf nv c cur hw
     have hes := edges_sound (W := W) nv c cur ρ hl hst hok.1.1 hs
     cases hc : c.eval ρ
     · simp only [hc, Bool.false_eq_true, ↓reduceIte] at h
       obtain ⟨hg, hlen, hst', hobs⟩ :=
-        LElse.sound nv d fuel rest cur _ ρ r hi.2 hok.2 hl hst hw hew.2 (hes.2 hc) h
+        LElse.sound nv d fuel rest cur _ ρ r hi.2 hok.2 hl hst (hes.2 hc) h
       exact ⟨good_ite_else hg, hlen, hst', hobs.right⟩
     · simp only [hc, ↓reduceIte] at h
       obtain ⟨hg, hlen, hst', hobs⟩ := LBlock.sound nv d fuel thn _ ρ r hi.1 hok.1.2 hl hst
-        (finishLabel_wf hew.1 hw) (finishLabel_sound (d := cur) (hes.1 hc)) h
+        (finishLabel_sound (d := cur) (hes.1 hc)) h
       exact ⟨good_ite_then hg, hlen, hst', hobs.left⟩
-  | fuel + 1, .whileDo c body, cur, ρ, r, hi, hok, hl, hst, hw, hs, h => by
+  | fuel + 1, .whileDo c body, cur, ρ, r, hi, hok, hl, hst, hs, h => by
     have hna : body.assignsIn W = true := by simpa [LStmt.loopOK] using hi
     simp only [LStmt.ok, Bool.and_eq_true] at hok
     have hag := LStmt.exec_agree (W := W) (fuel + 1) ρ (.whileDo c body) r (by simpa [LStmt.assignsIn] using hna) h
     simp only [LStmt.exec] at h
     simp only [LStmt.aexec]
-    have hew := edges_wf nv c cur hw
     have hes := edges_sound (W := W) nv c cur ρ hl hst hok.1 hs
     split at h
     · rename_i hc
@@ -467,7 +405,7 @@ theorem LStmt.sound (nv : Nat) (d : Nat → Atom) : ∀ (fuel : Nat) (s : LStmt)
       | some r1 =>
         have e1 := LBlock.exec_agree (W := W) fuel ρ body r1 hna h1
         obtain ⟨_, hl1, hst1, ho1⟩ := LBlock.sound nv d fuel body _ ρ r1 (LBlock.assignsIn_loopOK body hna) hok.2
-          hl hst (finishLabel_wf hew.1 hw) (finishLabel_sound (d := cur) (hes.1 hc)) h1
+          hl hst (finishLabel_sound (d := cur) (hes.1 hc)) h1
         simp only [h1] at h
         split at h
         · simp only [Option.some.injEq] at h; subst h
@@ -478,12 +416,12 @@ theorem LStmt.sound (nv : Nat) (d : Nat → Atom) : ∀ (fuel : Nat) (s : LStmt)
             simp only [h2, Option.some.injEq] at h
             subst h
             obtain ⟨_, hl2, hst2, ho2⟩ := LStmt.sound nv d fuel (.whileDo c body) cur r1.env r2 hi
-              (by simp [LStmt.ok, hok.1, hok.2]) hl1 hst1 hw (soundPt_agree e1 hs) h2
+              (by simp [LStmt.ok, hok.1, hok.2]) hl1 hst1 (soundPt_agree e1 hs) h2
             simp only [LStmt.aexec] at ho2
             exact ⟨soundPt_agree hag hs, hl2, hst2, ho1.append_same ho2⟩
     · simp only [Option.some.injEq] at h; subst h
       exact ⟨hs, hl, hst, ObsOK.nil⟩
-  | fuel + 1, .whileTrue body, cur, ρ, r, hi, hok, hl, hst, hw, hs, h => by
+  | fuel + 1, .whileTrue body, cur, ρ, r, hi, hok, hl, hst, hs, h => by
     have hna : body.assignsIn W = true := by simpa [LStmt.loopOK] using hi
     simp only [LStmt.ok] at hok
     simp only [LStmt.exec] at h
@@ -492,7 +430,7 @@ theorem LStmt.sound (nv : Nat) (d : Nat → Atom) : ∀ (fuel : Nat) (s : LStmt)
     | some r1 =>
       have e1 := LBlock.exec_agree (W := W) fuel ρ body r1 hna h1
       obtain ⟨hg1, hl1, hst1, ho1⟩ := LBlock.sound nv d fuel body cur ρ r1 (LBlock.assignsIn_loopOK body hna) hok
-        hl hst hw hs h1
+        hl hst hs h1
       simp only [h1] at h
       split at h
       · rename_i hbr
@@ -508,13 +446,13 @@ theorem LStmt.sound (nv : Nat) (d : Nat → Atom) : ∀ (fuel : Nat) (s : LStmt)
           simp only [h2, Option.some.injEq] at h
           subst h
           obtain ⟨hg2, hl2, hst2, ho2⟩ := LStmt.sound nv d fuel (.whileTrue body) cur r1.env r2 hi
-            (by simpa [LStmt.ok] using hok) hl1 hst1 hw (soundPt_agree e1 hs) h2
+            (by simpa [LStmt.ok] using hok) hl1 hst1 (soundPt_agree e1 hs) h2
           simp only [LStmt.aexec] at hg2 ho2 ⊢
           refine ⟨?_, hl2, hst2, ho1.append_same ho2⟩
           cases hb2 : r2.broke
           · rw [hb2] at hg2; exact hg2
           · rw [hb2] at hg2; obtain ⟨p, hp, _⟩ := hg2; simp at hp
-  | fuel + 1, .repeatUntil body c, cur, ρ, r, hi, hok, hl, hst, hw, hs, h => by
+  | fuel + 1, .repeatUntil body c, cur, ρ, r, hi, hok, hl, hst, hs, h => by
     have hna : body.assignsIn W = true := by simpa [LStmt.loopOK] using hi
     simp only [LStmt.ok, Bool.and_eq_true] at hok
     simp only [LStmt.exec] at h
@@ -523,7 +461,7 @@ theorem LStmt.sound (nv : Nat) (d : Nat → Atom) : ∀ (fuel : Nat) (s : LStmt)
     | some r1 =>
       have e1 := LBlock.exec_agree (W := W) fuel ρ body r1 hna h1
       obtain ⟨hg1, hl1, hst1, ho1⟩ := LBlock.sound nv d fuel body cur ρ r1 (LBlock.assignsIn_loopOK body hna) hok.2
-        hl hst hw hs h1
+        hl hst hs h1
       simp only [h1] at h
       split at h
       · rename_i hbr
@@ -550,18 +488,18 @@ theorem LStmt.sound (nv : Nat) (d : Nat → Atom) : ∀ (fuel : Nat) (s : LStmt)
             simp only [h2, Option.some.injEq] at h
             subst h
             obtain ⟨hg2, hl2, hst2, ho2⟩ := LStmt.sound nv d fuel (.repeatUntil body c) cur r1.env r2 hi
-              (by simp [LStmt.ok, hok.1, hok.2]) hl1 hst1 hw (soundPt_agree e1 hs) h2
+              (by simp [LStmt.ok, hok.1, hok.2]) hl1 hst1 (soundPt_agree e1 hs) h2
             simp only [LStmt.aexec] at hg2 ho2 ⊢
             refine ⟨?_, hl2, hst2, ho1.append_same ho2⟩
             cases hb2 : r2.broke
             · rw [hb2] at hg2; exact hg2
             · rw [hb2] at hg2; obtain ⟨p, hp, _⟩ := hg2; simp at hp
-  | fuel + 1, .forNum a b body, cur, ρ, r, hi, hok, hl, hst, hw, hs, h => by
+  | fuel + 1, .forNum a b body, cur, ρ, r, hi, hok, hl, hst, hs, h => by
     have hna : body.assignsIn W = true := by simpa [LStmt.loopOK] using hi
     simp only [LStmt.ok] at hok
     simp only [LStmt.exec] at h
     obtain ⟨hag, hbr, hl', hst', hobs, hlast⟩ := LBlock.soundN nv d fuel (b + 1 - a) body
-      (.node (passNode nv cur)) ρ r hna hok hl hst (passNode_wf hw) (passNode_sound hl hs) h
+      (.node (passNode nv cur)) ρ r hna hok hl hst (passNode_sound hl hs) h
     simp only [LStmt.aexec]
     split
     · rename_i hc
@@ -573,63 +511,61 @@ theorem LStmt.sound (nv : Nat) (d : Nat → Atom) : ∀ (fuel : Nat) (s : LStmt)
       · exact finishLabel_sound ⟨_, List.mem_append.mpr (.inr (by simp)), hps⟩
     · refine ⟨?_, hl', hst', hobs⟩
       rw [hbr]; exact soundPt_agree hag hs
-  | fuel + 1, .forIn n body, cur, ρ, r, hi, hok, hl, hst, hw, hs, h => by
+  | fuel + 1, .forIn n body, cur, ρ, r, hi, hok, hl, hst, hs, h => by
     have hna : body.assignsIn W = true := by simpa [LStmt.loopOK] using hi
     simp only [LStmt.ok] at hok
     simp only [LStmt.exec] at h
-    obtain ⟨hag, hbr, hl', hst', hobs, _⟩ := LBlock.soundN nv d fuel n body cur ρ r hna hok hl hst hw hs h
+    obtain ⟨hag, hbr, hl', hst', hobs, _⟩ := LBlock.soundN nv d fuel n body cur ρ r hna hok hl hst hs h
     simp only [LStmt.aexec]
     refine ⟨?_, hl', hst', hobs⟩
     rw [hbr]; exact soundPt_agree hag hs
 theorem LElse.sound (nv : Nat) (d : Nat → Atom) : ∀ (fuel : Nat) (e : LElse) (cur : Pt) (ins : List Pt) (ρ : Env)
-    (r : Out), e.loopOK W = true → e.ok S = true → ρ.length = nv → StoredOK S ρ → WfPt cur →
-    (∀ p ∈ ins, WfPt p) → (∃ p ∈ ins, SoundPt W ρ p) → LElse.exec fuel ρ e = some r →
+    (r : Out), e.loopOK W = true → e.ok S = true → ρ.length = nv → StoredOK S ρ →
+    (∃ p ∈ ins, SoundPt W ρ p) → LElse.exec fuel ρ e = some r →
     GoodE W r.env (e.aexec nv d cur ins).1 (e.aexec nv d cur ins).2.2 r.broke ∧ r.env.length = nv ∧
       StoredOK S r.env ∧ ObsOK W r.obs (e.aexec nv d cur ins).2.1
-  | 0, _, _, _, _, _, _, _, _, _, _, _, _, h => by simp [LElse.exec] at h
-  | fuel + 1, .none, cur, ins, ρ, r, _, _, hl, hst, hw, hwi, hs, h => by
+  | 0, _, _, _, _, _, _, _, _, _, _, h => by simp [LElse.exec] at h
+  | fuel + 1, .none, cur, ins, ρ, r, _, _, hl, hst, hs, h => by
     simp only [LElse.exec, Option.some.injEq] at h
     subst h
     simp only [LElse.aexec]
     exact ⟨⟨finishLabel ins cur, by simp, finishLabel_sound hs⟩, hl, hst, ObsOK.nil⟩
-  | fuel + 1, .els b, cur, ins, ρ, r, hi, hok, hl, hst, hw, hwi, hs, h => by
+  | fuel + 1, .els b, cur, ins, ρ, r, hi, hok, hl, hst, hs, h => by
     simp only [LElse.exec] at h
     simp only [LElse.aexec]
     obtain ⟨hg, hlen, hst', hobs⟩ := LBlock.sound nv d fuel b _ ρ r (by simpa [LElse.loopOK] using hi)
-      (by simpa [LElse.ok] using hok) hl hst (finishLabel_wf hwi hw) (finishLabel_sound (d := cur) hs) h
+      (by simpa [LElse.ok] using hok) hl hst (finishLabel_sound (d := cur) hs) h
     refine ⟨?_, hlen, hst', hobs⟩
     cases hb : r.broke
     · rw [hb] at hg; exact ⟨_, by simp, hg⟩
     · rw [hb] at hg; exact hg
-  | fuel + 1, .elif c thn rest, cur, ins, ρ, r, hi, hok, hl, hst, hw, hwi, hs, h => by
+  | fuel + 1, .elif c thn rest, cur, ins, ρ, r, hi, hok, hl, hst, hs, h => by
     simp only [LElse.loopOK, Bool.and_eq_true] at hi
     simp only [LElse.ok, Bool.and_eq_true] at hok
     simp only [LElse.exec] at h
     simp only [LElse.aexec]
-    have hpw := finishLabel_wf hwi hw
     have hps := finishLabel_sound (d := cur) hs
-    have hew := edges_wf nv c _ hpw
     have hes := edges_sound (W := W) nv c _ ρ hl hst hok.1.1 hps
     cases hc : c.eval ρ
     · simp only [hc, Bool.false_eq_true, ↓reduceIte] at h
       obtain ⟨hg, hlen, hst', hobs⟩ :=
-        LElse.sound nv d fuel rest cur _ ρ r hi.2 hok.2 hl hst hw hew.2 (hes.2 hc) h
+        LElse.sound nv d fuel rest cur _ ρ r hi.2 hok.2 hl hst (hes.2 hc) h
       exact ⟨goodE_else hg, hlen, hst', hobs.right⟩
     · simp only [hc, ↓reduceIte] at h
       obtain ⟨hg, hlen, hst', hobs⟩ := LBlock.sound nv d fuel thn _ ρ r hi.1 hok.1.2 hl hst
-        (finishLabel_wf hew.1 hw) (finishLabel_sound (d := cur) (hes.1 hc)) h
+        (finishLabel_sound (d := cur) (hes.1 hc)) h
       exact ⟨goodE_then hg, hlen, hst', hobs.left⟩
 theorem LBlock.sound (nv : Nat) (d : Nat → Atom) : ∀ (fuel : Nat) (b : LBlock) (cur : Pt) (ρ : Env) (r : Out),
-    b.loopOK W = true → b.ok S = true → ρ.length = nv → StoredOK S ρ → WfPt cur → SoundPt W ρ cur →
+    b.loopOK W = true → b.ok S = true → ρ.length = nv → StoredOK S ρ → SoundPt W ρ cur →
     LBlock.exec fuel ρ b = some r →
     Post W S nv r (b.aexec nv d cur).out (b.aexec nv d cur).brks (b.aexec nv d cur).obs
-  | 0, _, _, _, _, _, _, _, _, _, _, h => by simp [LBlock.exec] at h
-  | fuel + 1, .nil, cur, ρ, r, _, _, hl, hst, hw, hs, h => by
+  | 0, _, _, _, _, _, _, _, _, _, h => by simp [LBlock.exec] at h
+  | fuel + 1, .nil, cur, ρ, r, _, _, hl, hst, hs, h => by
     simp only [LBlock.exec, Option.some.injEq] at h
     subst h
     simp only [LBlock.aexec]
     exact ⟨hs, hl, hst, ObsOK.nil⟩
-  | fuel + 1, .cons s rest, cur, ρ, r, hi, hok, hl, hst, hw, hs, h => by
+  | fuel + 1, .cons s rest, cur, ρ, r, hi, hok, hl, hst, hs, h => by
     simp only [LBlock.loopOK, Bool.and_eq_true] at hi
     simp only [LBlock.ok, Bool.and_eq_true] at hok
     simp only [LBlock.exec] at h
@@ -637,7 +573,7 @@ theorem LBlock.sound (nv : Nat) (d : Nat → Atom) : ∀ (fuel : Nat) (b : LBloc
     cases h1 : LStmt.exec fuel ρ s with
     | none => simp [h1] at h
     | some r1 =>
-      obtain ⟨hg1, hl1, hst1, ho1⟩ := LStmt.sound nv d fuel s cur ρ r1 hi.1 hok.1 hl hst hw hs h1
+      obtain ⟨hg1, hl1, hst1, ho1⟩ := LStmt.sound nv d fuel s cur ρ r1 hi.1 hok.1 hl hst hs h1
       simp only [h1] at h
       split at h
       · rename_i hbr
@@ -654,28 +590,27 @@ theorem LBlock.sound (nv : Nat) (d : Nat → Atom) : ∀ (fuel : Nat) (b : LBloc
         | some r2 =>
           simp only [h2, Option.some.injEq] at h
           subst h
-          obtain ⟨hg2, hl2, hst2, ho2⟩ := LBlock.sound nv d fuel rest _ r1.env r2 hi.2 hok.2 hl1 hst1
-            (LStmt.aexec_wf nv d s cur hw).1 hg1 h2
+          obtain ⟨hg2, hl2, hst2, ho2⟩ := LBlock.sound nv d fuel rest _ r1.env r2 hi.2 hok.2 hl1 hst1 hg1 h2
           exact ⟨good_right hg2, hl2, hst2, ho1.append ho2⟩
 theorem LBlock.soundN (nv : Nat) (d : Nat → Atom) : ∀ (fuel n : Nat) (body : LBlock) (cur : Pt) (ρ : Env) (r : Out),
-    body.assignsIn W = true → body.ok S = true → ρ.length = nv → StoredOK S ρ → WfPt cur → SoundPt W ρ cur →
+    body.assignsIn W = true → body.ok S = true → ρ.length = nv → StoredOK S ρ → SoundPt W ρ cur →
     LBlock.execN fuel n ρ body = some r →
     Agree W r.env ρ ∧ r.broke = false ∧ r.env.length = nv ∧ StoredOK S r.env ∧
       ObsOK W r.obs (body.aexec nv d cur).obs ∧
       (0 < n → (∃ p ∈ (body.aexec nv d cur).brks, SoundPt W r.env p) ∨ SoundPt W r.env (body.aexec nv d cur).out)
-  | 0, _, _, _, _, _, _, _, _, _, _, _, h => by simp [LBlock.execN] at h
-  | fuel + 1, 0, body, cur, ρ, r, _, _, hl, hst, _, _, h => by
+  | 0, _, _, _, _, _, _, _, _, _, _, h => by simp [LBlock.execN] at h
+  | fuel + 1, 0, body, cur, ρ, r, _, _, hl, hst, _, h => by
     simp only [LBlock.execN, Option.some.injEq] at h
     subst h
     exact ⟨Agree.refl ρ, rfl, hl, hst, ObsOK.nil, fun h => absurd h (by omega)⟩
-  | fuel + 1, n + 1, body, cur, ρ, r, hna, hok, hl, hst, hw, hs, h => by
+  | fuel + 1, n + 1, body, cur, ρ, r, hna, hok, hl, hst, hs, h => by
     simp only [LBlock.execN] at h
     cases h1 : LBlock.exec fuel ρ body with
     | none => simp [h1] at h
     | some r1 =>
       have e1 := LBlock.exec_agree (W := W) fuel ρ body r1 hna h1
       obtain ⟨hg1, hl1, hst1, ho1⟩ := LBlock.sound nv d fuel body cur ρ r1 (LBlock.assignsIn_loopOK body hna) hok
-        hl hst hw hs h1
+        hl hst hs h1
       simp only [h1] at h
       split at h
       · rename_i hbr
@@ -691,7 +626,7 @@ theorem LBlock.soundN (nv : Nat) (d : Nat → Atom) : ∀ (fuel n : Nat) (body :
         | some r2 =>
           simp only [h2, Option.some.injEq] at h
           subst h
-          obtain ⟨e2, _, hl2, hst2, ho2, hlast⟩ := LBlock.soundN nv d fuel n body cur r1.env r2 hna hok hl1 hst1 hw
+          obtain ⟨e2, _, hl2, hst2, ho2, hlast⟩ := LBlock.soundN nv d fuel n body cur r1.env r2 hna hok hl1 hst1
             (soundPt_agree e1 hs) h2
           refine ⟨e1.trans e2, rfl, hl2, hst2, ho1.append_same ho2, fun _ => ?_⟩
           by_cases hn : 0 < n
